@@ -31,6 +31,30 @@ class C03(PropertyCheck):
         "a case is non-trivial when the kernel has more than one non-zero entry or the mask has masked "
         "pixels inside the kernel footprint of an unmasked one; distinct = distinct (kind, mask, kernel, values)"
     )
+    modelled_functions = [
+        "autoarray/operators/convolver.py:Convolver.__init__",
+        "autoarray/operators/convolver.py:Convolver.frame_at_coordinates_jit",
+        "autoarray/operators/convolver.py:Convolver.convolve_image",
+        "autoarray/operators/convolver.py:Convolver.convolve_jit",
+        "autoarray/operators/convolver.py:Convolver.convolve_image_no_blurring",
+        "autoarray/operators/convolver.py:Convolver.convolve_no_blurring_jit",
+        "autoarray/operators/convolver.py:Convolver.convolve_mapping_matrix",
+        "autoarray/operators/convolver.py:Convolver.convolve_matrix_jit",
+        "autoarray/mask/mask_2d_util.py:blurring_mask_2d_from",
+        "autoarray/mask/mask_2d_util.py:total_pixels_2d_from",
+        "autoarray/mask/derive/mask_2d.py:DeriveMask2D.blurring_from",
+        "autoarray/structures/arrays/array_2d_util.py:array_2d_slim_from",
+        "autoarray/structures/arrays/kernel_2d.py:Kernel2D.__init__",
+        "autoarray/structures/arrays/kernel_2d.py:Kernel2D.no_mask",
+        "autoarray/structures/arrays/kernel_2d.py:Kernel2D.normalized",
+        "autoarray/structures/arrays/kernel_2d.py:Kernel2D.convolved_array_from",
+        "autoarray/structures/arrays/kernel_2d.py:Kernel2D.convolved_array_with_mask_from",
+        "autoarray/dataset/imaging/simulator.py:SimulatorImaging.__init__",
+        "autoarray/dataset/imaging/simulator.py:SimulatorImaging.via_image_from",
+        "autoarray/dataset/imaging/dataset.py:Imaging.__init__",
+        "autoarray/dataset/imaging/dataset.py:Imaging.apply_mask",
+        "autoarray/dataset/imaging/dataset.py:Imaging.convolver",
+    ]
     trusted_extra = [
         "scipy.signal.convolve2d(mode='same') is not modelled: Spec.convSame is its assumed contract (true "
         "convolution, zero outside the frame), checked against the implementation on every 'same'/'simulate' case",
